@@ -218,4 +218,196 @@ example : J.normObj [("b", .str "1"), ("a", .str "2"), ("b", .str "3")] = [("a",
   have h' : J.keyLt "b" "a" = false := by simp only [J.keyLt, Lemmas.utf8_eq]; decide
   simp [J.normObj, J.insertKV, h, h']
 
+/-! ## Arbitrary filter texts: `TagFilter::from_str` is total and classified; the legacy array form
+
+The parser side of the JSON form on input that `to_value` never produces: the legacy restriction
+list, `null`, every error arm, text that is not JSON, nesting beyond serde_json's limit.  (Model:
+`parseQuery` — the value-level parser, `fromValue` — with serde's error wrapper, `fromText` — with
+the text layer's three facts: starts with a value or not / nesting / trailing characters.) -/
+
+/-- `parse_total`: on EVERY JSON value the value-level parser either returns a filter or fails with
+    one of the seventeen messages of `wql/query.rs` — there is no third outcome (no panic arm:
+    `map.into_iter().next().unwrap()` is guarded by `map.len() == 1`, which the model's
+    one-element-list pattern is). -/
+theorem parse_total (j : J) :
+    (∃ q, parseQuery j = .ok q) ∨ (∃ m, parseQuery j = .error m ∧ m ∈ parseErrorMessages) := by
+  cases h : parseQuery j with
+  | ok q => exact .inl ⟨q, rfl⟩
+  | error m => exact .inr ⟨m, rfl, Lemmas.parseQuery_classified j m h⟩
+
+/-- The same for the whole of `TagFilter::from_str`, on every text: a filter, or an error of kind
+    `Input` whose cause is a text-level failure (`malformed` / `depth`) or one of the seventeen
+    messages, wrapped `custom` exactly in the array form and `missing_field` otherwise. -/
+theorem from_str_total (t : TextParse) :
+    (∃ q, fromText t = .ok q) ∨
+    (∃ e, fromText t = .error e ∧ e.kindName = "Input" ∧
+      (e = .malformed ∨ e = .depth ∨
+        ∃ j trailing m, t = .value j trailing ∧ m ∈ parseErrorMessages ∧ e = wrapErr j.norm m)) := by
+  cases t with
+  | malformed => exact .inr ⟨.malformed, rfl, rfl, .inl rfl⟩
+  | value j trailing =>
+    by_cases hd : j.depth ≤ jsonDepthLimit
+    · cases h : parseQuery j.norm with
+      | ok q =>
+        cases trailing with
+        | false => exact .inl ⟨q, by simp [fromText, hd, fromValue, h]⟩
+        | true => exact .inr ⟨.malformed, by simp [fromText, hd, fromValue, h], rfl, .inl rfl⟩
+      | error m =>
+        exact .inr ⟨wrapErr j.norm m, by simp [fromText, hd, fromValue, h], rfl,
+          .inr (.inr ⟨j, trailing, m, rfl, Lemmas.parseQuery_classified _ m h, rfl⟩)⟩
+    · exact .inr ⟨.depth, by simp [fromText, hd], rfl, .inr (.inl rfl)⟩
+
+/-- A successful `from_str` is exactly: at most 127 levels, the value (as a map) parses, nothing
+    but white space follows. -/
+theorem from_str_ok_iff (j : J) (trailing : Bool) (q : Query String) :
+    fromText (.value j trailing) = .ok q ↔
+      j.depth ≤ jsonDepthLimit ∧ parseQuery j.norm = .ok q ∧ trailing = false := by
+  by_cases hd : j.depth ≤ jsonDepthLimit
+  · cases h : parseQuery j.norm <;> cases trailing <;> simp [fromText, hd, fromValue, h]
+  · simp [fromText, hd]
+
+/-- The value-level error of the FIRST value wins over trailing characters; a good first value
+    followed by anything else is a syntax error. -/
+theorem from_str_value_error_first (j : J) (trailing : Bool) (m : String)
+    (hd : j.depth ≤ jsonDepthLimit) (h : parseQuery j.norm = .error m) :
+    fromText (.value j trailing) = .error (wrapErr j.norm m) := by
+  simp [fromText, hd, fromValue, h]
+
+example : fromText (.value (.num 1) true) = .error (.missingField "Restriction must be either object or array") := rfl
+example : fromText (.value (.obj [("a", .num 5)]) true) = .error (.missingField "Unsupported value") := rfl
+example : fromText (.value (.obj [("a", .str "1")]) true) = .error .malformed := rfl
+example : fromText (.value (.obj [("a", .str "1")]) false) = .ok (.cmp .eq "a" "1") := rfl
+example : fromText (.value (.arr [.obj [("a", .num 5)]]) false) = .error (.custom "Unsupported value") := rfl
+example : (ParseErr.missingField "Unsupported value").display = "missing field `Unsupported value`" := by decide
+
+/-- `array_form_is_or`: a legacy restriction list whose members are all objects is read exactly as
+    the `{"$or": […]}` object of its members with the `null` fields dropped and the members left
+    empty dropped — same filter, same error. -/
+theorem array_form_is_or (ms : List (List (String × J))) :
+    parseQuery (.arr (ms.map .obj)) = parseQuery (.obj [("$or", .arr ((legacyKept ms).map .obj))]) := by
+  simp [parseQuery, Lemmas.legacyObjs_objs]
+
+/-- … which is the `Or` of the members' own filters (each surviving member read as a filter of its
+    own), in order, when at least one member survives … -/
+theorem array_form_or_of_members (ms : List (List (String × J))) (qs : List (Query String))
+    (h : ParsesTo (legacyKept ms) qs) (hne : legacyKept ms ≠ []) :
+    parseQuery (.arr (ms.map .obj)) = .ok (.or qs) := by
+  rw [array_form_is_or]
+  exact Lemmas.parseQuery_or_list _ qs (Lemmas.parseList_objs _ qs h) (by simpa using hne)
+
+/-- … so it selects the union of what the members select, on every record. -/
+theorem array_form_selects_union (like : Bytes → Bytes → Bool) (ms : List (List (String × J)))
+    (qs : List (Query String)) (h : ParsesTo (legacyKept ms) qs) (hne : legacyKept ms ≠ []) :
+    ∃ q, parseQuery (.arr (ms.map .obj)) = .ok q ∧
+      ∀ tags, holds like tags (tagQuery q) = qs.any fun q' => holds like tags (tagQuery q') :=
+  ⟨.or qs, array_form_or_of_members ms qs h hne, fun tags => Lemmas.holds_or like tags qs⟩
+
+/-- No member survives (`[]`, `[{}]`, `[{"a": null}]`): the empty `$and`, which selects every
+    record — NOT the empty `$or` (`json_cannot_express_empty_or`). -/
+theorem array_form_nothing_kept (ms : List (List (String × J))) (h : legacyKept ms = []) :
+    parseQuery (.arr (ms.map .obj)) = .ok (.and []) := by
+  rw [array_form_is_or, h]; rfl
+
+/-- The first surviving member that is not a filter decides the error of the whole list. -/
+theorem array_form_member_error (pre : List (List (String × J))) (qs : List (Query String))
+    (m : List (String × J)) (post : List (List (String × J))) (e : String) (ms : List (List (String × J)))
+    (hk : legacyKept ms = pre ++ m :: post) (h : ParsesTo pre qs) (hm : parseQuery (.obj m) = .error e) :
+    parseQuery (.arr (ms.map .obj)) = .error e := by
+  rw [array_form_is_or, hk]
+  have := Lemmas.parseList_objs_error pre qs m (post.map .obj) e h hm
+  simp only [List.map_append, List.map_cons]
+  cases hpre : pre.map J.obj ++ J.obj m :: post.map J.obj with
+  | nil => simp at hpre
+  | cons x xs => rw [hpre] at this; simp [parseQuery, parseMap, parseOps, parseOperator, this]
+
+/-- A member that is not an object — anywhere in the list — refuses the whole list. -/
+theorem array_non_object_refused (xs : List J) (h : ∃ x ∈ xs, x.isObj = false) :
+    parseQuery (.arr xs) = .error "Restriction is invalid" := by
+  simp [parseQuery, Lemmas.legacyObjs_nonobj h]
+
+/-- `null_members_dropped`: in the array form a restriction and the same restriction without its
+    `null` fields are interchangeable, wherever it stands and whatever else the list holds … -/
+theorem null_members_dropped (pre post : List J) (m : List (String × J)) :
+    parseQuery (.arr (pre ++ .obj m :: post)) = parseQuery (.arr (pre ++ .obj (dropNulls m) :: post)) := by
+  simp only [parseQuery, Lemmas.legacyObjs_congr pre (Lemmas.legacyObjs_dropNulls m post)]
+
+/-- … and a restriction with nothing but `null` fields (or none at all) might as well not be there. -/
+theorem null_only_member_dropped (pre post : List J) (m : List (String × J))
+    (h : m.all (fun kv => kv.2.isNull) = true) :
+    parseQuery (.arr (pre ++ .obj m :: post)) = parseQuery (.arr (pre ++ post)) := by
+  simp only [parseQuery, Lemmas.legacyObjs_congr pre (Lemmas.legacyObjs_null_only h post)]
+
+/-- Only there: in the object form — also one level down, inside an explicit `$or` — a `null` is
+    refused.  (`[{"a": null}]` selects everything, `{"$or": [{"a": null}]}` is an error.) -/
+theorem null_in_object_form_refused (k : String) (h : reservedKey k = false) :
+    parseQuery (.obj [(k, .null)]) = .error "Unsupported value"
+    ∧ parseQuery (.obj [("$or", .arr [.obj [(k, .null)]])]) = .error "Unsupported value"
+    ∧ parseQuery (.arr [.obj [(k, .null)]]) = .ok (.and []) := by
+  obtain ⟨h1, h2, h3, h4⟩ := Lemmas.reservedKey_false h
+  refine ⟨?_, ?_, rfl⟩ <;>
+    simp [parseQuery, parseMap, parseOps, parseOperator, parseList, h1, h2, h3, h4]
+
+/-! Non-vacuity: the list of the coverage audit, `[{"a":"1"},{"b":null},{}]`; a two-member list that
+    really is a union (selected through either member, rejected through neither); the hypotheses of
+    the member-wise theorems on it. -/
+def exLegacy : List (List (String × J)) := [[("a", .str "1"), ("~n", .null)], [("b", .null)], [], [("~n", .str "5")]]
+example : legacyKept exLegacy = [[("a", .str "1")], [("~n", .str "5")]] := rfl
+example : ParsesTo (legacyKept exLegacy) [.cmp .eq "a" "1", .cmp .eq "~n" "5"] := ⟨rfl, rfl, trivial⟩
+example : parseQuery (.arr (exLegacy.map .obj)) = .ok (.or [.cmp .eq "a" "1", .cmp .eq "~n" "5"]) := rfl
+example : parseQuery (.arr [.obj [("a", .str "1")], .obj [("b", .null)], .obj []]) = .ok (.or [.cmp .eq "a" "1"]) := rfl
+example : holds (fun _ _ => false) [⟨false, "a", "1"⟩] (tagQuery (.or [.cmp .eq "a" "1", .cmp .eq "~n" "5"])) = true := by
+  simp only [tagQuery, Query.mapNames, mapNamesList, splitName, holds, holdsP, holdsAll, holdsAny, atomCmp, Lemmas.utf8_eq]
+  decide
+example : holds (fun _ _ => false) [⟨true, "n", "5"⟩] (tagQuery (.or [.cmp .eq "a" "1", .cmp .eq "~n" "5"])) = true := by
+  simp only [tagQuery, Query.mapNames, mapNamesList, splitName, holds, holdsP, holdsAll, holdsAny, atomCmp, Lemmas.utf8_eq]
+  decide
+example : holds (fun _ _ => false) [⟨false, "a", "2"⟩, ⟨false, "n", "5"⟩] (tagQuery (.or [.cmp .eq "a" "1", .cmp .eq "~n" "5"])) = false := by
+  simp only [tagQuery, Query.mapNames, mapNamesList, splitName, holds, holdsP, holdsAll, holdsAny, atomCmp, Lemmas.utf8_eq]
+  decide
+example : parseQuery (.arr [.obj [("a", .str "1")], .obj [("b", .num 5)]]) = .error "Unsupported value" := rfl
+example : (∃ x ∈ [J.obj [("a", .str "1")], .null], x.isObj = false) := ⟨.null, by simp, rfl⟩
+example : reservedKey "a" = false := by decide
+/-- every error arm is reachable (one witness each, by evaluation) -/
+example : parseQuery (.obj [("$and", .obj [])]) = .error "$and must be array of JSON objects" := rfl
+example : parseQuery (.obj [("$or", .obj [])]) = .error "$or must be array of JSON objects" := rfl
+example : parseQuery (.obj [("$not", .arr [])]) = .error "$not must be JSON object" := rfl
+example : parseQuery (.obj [("$exist", .num 5)]) = .error "$exist must be used with a string or array of strings" := rfl
+example : parseQuery (.obj [("a", .obj [])]) = .error "value must be JSON object of length 1" := rfl
+example : parseQuery (.obj [("a", .num 5)]) = .error "Unsupported value" := rfl
+example : parseQuery (.obj [("a", .null)]) = .error "Unsupported value" := rfl
+example : parseQuery (.obj [("$or", .arr [.num 1])]) = .error "operator must be array of JSON objects" := rfl
+example : parseQuery (.obj [("a", .obj [("$neq", .num 1)])]) = .error "$neq must be used with string" := rfl
+example : parseQuery (.obj [("a", .obj [("$gt", .null)])]) = .error "$gt must be used with string" := rfl
+example : parseQuery (.obj [("a", .obj [("$gte", .arr [])])]) = .error "$gte must be used with string" := rfl
+example : parseQuery (.obj [("a", .obj [("$lt", .obj [])])]) = .error "$lt must be used with string" := rfl
+example : parseQuery (.obj [("a", .obj [("$lte", .bool false)])]) = .error "$lte must be used with string" := rfl
+example : parseQuery (.obj [("a", .obj [("$like", .num 1)])]) = .error "$like must be used with string" := rfl
+example : parseQuery (.obj [("a", .obj [("$in", .str "x")])]) = .error "$in must be used with array of strings" := rfl
+example : parseQuery (.obj [("a", .obj [("$in", .arr [.str "x", .num 1])])]) = .error "$in must be used with array of strings" := rfl
+example : parseQuery (.arr [.num 1]) = .error "Restriction is invalid" := rfl
+example : parseQuery .null = .error "Restriction must be either object or array" := rfl
+/-- duplicate keys: the last one wins before the parser sees the object — also against the
+    "length 1" check; members are visited in key order, which decides WHICH error is reported -/
+example : parseQuery (J.norm (.obj [("a", .num 1), ("a", .str "2")])) = .ok (.cmp .eq "a" "2") := by
+  simp [J.norm, normKVs, J.normObj, J.insertKV, parseQuery, parseMap, parseOps, parseOperator, collapse]
+example : parseQuery (J.norm (.obj [("a", .obj [("$neq", .str "1"), ("$neq", .str "2")])])) = .ok (.cmp .neq "a" "2") := by
+  simp [J.norm, normKVs, J.normObj, J.insertKV, parseQuery, parseMap, parseOps, parseOperator, parseSingle, cmpOfKey, collapse]
+
+/-! The text of a filter can be DEEPER than the text it was read from (`{"$exist": "a"}` is written
+    back as `{"$exist": ["a"]}`, an object of several members as an explicit `$and` array): read from
+    127 levels — the most serde_json accepts — it is written at 128 or more and cannot be read again.
+    This is the boundary of `json_text_roundtrip`'s depth hypothesis, reached from the parser's side. -/
+def deepNot (n : Nat) (x : J) : J := Nat.repeat (fun x => J.obj [("$not", x)]) n x
+
+set_option maxRecDepth 8000 in
+theorem reparse_can_fail_on_depth :
+    ∃ j q, fromText (.value j false) = .ok q ∧ jsonRoute q = .error "recursion limit exceeded" :=
+  ⟨deepNot 126 (.obj [("$exist", .str "a")]), Nat.repeat Query.not 126 (.exist ["a"]), rfl, rfl⟩
+
+set_option maxRecDepth 8000 in
+/-- one level more on the way in is refused, whatever is inside — before duplicate keys are merged -/
+example : fromText (.value (deepNot 127 (.obj [("$exist", .str "a")])) false) = .error .depth := rfl
+set_option maxRecDepth 8000 in
+example : fromText (.value (.obj [("a", deepNot 127 (.num 1)), ("a", .str "1")]) false) = .error .depth := rfl
+
 end Askar.Wql
